@@ -100,7 +100,7 @@ theorem addDirective_local (banned : List Kind) (d : BDir) (kids : List BDir) (a
       · exact LocalAt.congr (addBody_local d anc i hi') (fun c => by unfold addDirective; rw [if_neg hb, h])
       · exact LocalAt.congr LocalAt.ok (fun c => by unfold addDirective; rw [if_neg hb, h])
       · exact LocalAt.congr LocalAt.ok (fun c => by unfold addDirective; rw [if_neg hb, h])
-    · exact LocalAt.congr (addTags_local d i) (fun c => by unfold addDirective; rw [if_neg hb, h])
+    · exact LocalAt.congr (addTags_local d anc i) (fun c => by unfold addDirective; rw [if_neg hb, h])
 
 mutual
   /-- every directive below a method directive works on the interaction of that method -/
